@@ -336,6 +336,46 @@ def _config_for_facts(tree):
     return cached, skips, [k for k, _ in req_kws], [k for k, _ in opt_kws], req_where == "front", call_site_wins
 
 
+BTY = {"int": "TInt", "str": "TStr", "float": "TFloat", "bool": "TBool"}
+
+
+def _infer_rule(tree):
+    """Head of infer_type_annotation_from_default: which builtin an un-annotated parameter's default is typed as."""
+    fn = find_def(tree, "infer_type_annotation_from_default")
+    if [a.arg for a in fn.args.args] != ["default"]:
+        raise Unrecognised("infer_type_annotation_from_default signature")
+    body = clean(fn.body)
+    texts = [unparse(x) for x in body]
+    tail = ["if isinstance(default, tuple):\n    return tuple[tuple((infer_type_annotation_from_default(d) for d in default))]",
+            "if isinstance(default, list):\n    if not default:\n        return list\n"
+            "    return list[infer_type_annotation_from_default(default[0])]",
+            "if isinstance(default, dict):\n    if not default:\n        return dict",
+            'raise NotImplementedError(f"Don\'t know how to infer type annotation to use for default of {default}")']
+    if len(texts) != 5 or texts[1:] != tail:
+        raise Unrecognised("infer_type_annotation_from_default: tuple/list/dict part changed: " + " | ".join(texts[1:])[:300])
+    head = body[0]
+
+    def names(node):
+        if not isinstance(node, (ast.Tuple, ast.List)):
+            raise Unrecognised(f"infer_type_annotation_from_default: type tuple {unparse(node)}")
+        out = []
+        for e in node.elts:
+            if not (isinstance(e, ast.Name) and e.id in BTY):
+                raise Unrecognised(f"infer_type_annotation_from_default: type {unparse(e)}")
+            out.append(BTY[e.id])
+        return out
+
+    if isinstance(head, ast.If) and not head.orelse and isinstance(head.test, ast.Call) and unparse(head.test.func) == "isinstance" \
+            and len(head.test.args) == 2 and unparse(head.test.args[0]) == "default" \
+            and [unparse(x) for x in clean(head.body)] == ["return type(default)"]:
+        return "InferTypeOf [" + "; ".join(names(head.test.args[1])) + "]"
+    if isinstance(head, ast.For) and not head.orelse and isinstance(head.target, ast.Name):
+        v = head.target.id
+        if [unparse(x) for x in clean(head.body)] == [f"if isinstance(default, {v}):\n    return {v}"]:
+            return "InferFirst [" + "; ".join(names(head.iter)) + "]"
+    raise Unrecognised("infer_type_annotation_from_default: head statement " + texts[0][:200])
+
+
 def _b(x):
     return "true" if x else "false"
 
@@ -351,9 +391,11 @@ def emit(repo: str) -> str:
     bool_params = _bool_action_params(ca)
     _check_field_wrapper(fw)
     cached, skips, req_kws, opt_kws, req_front, call_site_wins = _config_for_facts(partial)
+    infer_rule = _infer_rule(partial)
     return (
         "From SPV Require Import Base.Str Model.Front.\nOpen Scope string_scope.\n"
         "Definition facts_gen : facts := {|\n"
+        f"  f_infer := {infer_rule};\n"
         f"  f_main_kwargs := {cstrs(main_kwargs)};\n"
         f"  f_field_named := {cstrs(named)};\n"
         f"  f_bool_params := {cstrs(bool_params)};\n"
